@@ -294,10 +294,15 @@ class PlayerStateManager:
         player = self.get_player(player_to_remove)
         if player.is_valid:
             client = self.get_client(player_to_remove.client)
+
+            # Must be evaluated before the player is removed: the default player
+            # serves as active player when no player has been set explicitly
+            was_active = player == client.active_player
+
             del client.players[player.identifier]
             player.parent = None
 
-            if player == client.active_player:
+            if was_active:
                 client.active_player = None
                 await self._state_updated(client=client)
 
